@@ -104,6 +104,9 @@ def main(argv=None):
     a = sub.add_parser("all")
     a.add_argument("--tier", default="quick")
     a.add_argument("--repo", default=None)
+    ex = sub.add_parser("explain")
+    ex.add_argument("path")
+    ex.add_argument("--repo", default=None)
     st = sub.add_parser("selftest")
     st.add_argument("--only", default=None)
     st.add_argument("--prop", action="append")
@@ -114,6 +117,22 @@ def main(argv=None):
         from .selftest import selftest
         res = selftest(args.repo, args.only, args.prop, args.jobs)
         return 1 if any(r["status"] in ("MISSED", "FALSE-ALARM") for r in res) else 0
+    if args.cmd == "explain":
+        import json
+        d = json.load(open(args.path))
+        print("property %s  rule %s  -- %s" % (d.get("property"), d.get("rule"), d.get("rule_text", "")))
+        print("construct: %s  [%s]  at %s" % (d.get("function"), d.get("what"), d.get("loc")))
+        print("reported:  %s" % d.get("detail"))
+        if d.get("path"):
+            print("path:      %s" % d.get("path"))
+        print("re-evaluating on the current tree ...")
+        os.environ["VF_EVIDENCE_DIR"] = os.path.join(X.workdir(), "evidence")
+        rc = run_check(d["property"], "quick", args.repo)
+        import glob as _g
+        still = [f for f in _g.glob(os.path.join(os.environ["VF_EVIDENCE_DIR"], "replay", "*.json")) if json.load(open(f)).get("key") == d.get("key")]
+        print("=> the violation %s on the current tree" % ("is STILL reported" if still else "is no longer reported"))
+        shutil.rmtree(os.path.dirname(os.environ["VF_EVIDENCE_DIR"]), ignore_errors=True)
+        return 1 if still else 0
     if args.cmd == "check":
         return run_check(args.prop, args.tier, args.repo)
     if args.cmd == "all":
